@@ -97,7 +97,8 @@ func natural(t *h.Tok) string {
 	return "TAccess"
 }
 
-func history(r drv.Rand, idx int) *h.World {
+// prefix: a fresh world with its code flows and, sometimes, a revocation or logout.
+func prefix(r drv.Rand, idx int) (*hist, opfix.Router) {
 	w := h.NewWorld(r)
 	x := &hist{w: w, r: r}
 	fixed := opfix.Router(idx % 2)
@@ -123,12 +124,25 @@ func history(r drv.Rand, idx int) *h.World {
 			}
 		}
 	}
+	return x, fixed
+}
+
+func history(r drv.Rand, idx int) *h.World {
+	x, fixed := prefix(r, idx)
+	w := x.w
 	if r.Chance(1, 25) {
 		if w.ConfusedExchange(fixed) {
 			return w
 		}
 	}
-	for i, n := 0, 4+r.IntN(4); i < n; i++ {
+	x.exchanges(fixed, 4+r.IntN(4))
+	return w
+}
+
+// exchanges sends n token-exchange requests from the matrix.
+func (x *hist) exchanges(fixed opfix.Router, n int) {
+	w, r := x.w, x.r
+	for i := 0; i < n; i++ {
 		sk := drv.Pick(r, kinds)
 		subj := x.pick(sk)
 		styp := natural(subj)
@@ -206,7 +220,6 @@ func history(r drv.Rand, idx int) *h.World {
 			}
 		}
 	}
-	return w
 }
 
 func main() {
@@ -216,10 +229,16 @@ func main() {
 	n := cfg.Count(700, 8000)
 	for i := 0; i < n; i++ {
 		w := history(r, i)
-		wr.Add(emit.Case{Input: w.Input(), Observed: w.Observed(), Tags: w.TagList(), Human: w.Log})
+		w.Tags["case=history"] = true
+		wr.Add(emit.Case{Input: emit.Ctor("IHist", w.Input()), Observed: emit.Ctor("OHist", w.Observed()), Tags: w.TagList(), Human: w.Log})
+	}
+	// round 11: requests built and sent by the library's client helpers
+	m := cfg.Count(400, 4000)
+	for i := 0; i < m; i++ {
+		wr.Add(helperCase(r, i))
 	}
 	err := wr.Close(emit.Meta{Property: "C15", Tier: cfg.Tier, Seed: cfg.Seed,
-		Rule: "one case = one history on a fresh provider: 2-3 code flows (an opaque-token client, a JWT client, often a client with negative lifetimes; subjects incl. one with a colon), optionally a revocation or logout, then 3-6 token-exchange requests from the matrix subject kind {opaque AT, JWT AT, RT, ID token, foreign (other key / issuer / tampered), expired, revoked, garbage, colon subject} x declared type (the natural one, or any of access/refresh/id/jwt/unknown/absent) x actor {none or any kind} x requested type {absent, access, refresh, id, jwt, unknown} x credentials x scopes (incl. the storage's veto at its first hook, its late veto at the second hook - CreateTokenExchangeRequest, plain or OAuth error, a world dimension - and drop) x audience, each returned token presented at userinfo / introspection half of the time. Non-trivial = at least one exchange of the history succeeded (path class != 0); distinct = distinct (input, path class).",
+		Rule: "one case = one history on a fresh provider: 2-3 code flows (an opaque-token client, a JWT client, often a client with negative lifetimes; subjects incl. one with a colon), optionally a revocation or logout, then 3-6 token-exchange requests from the matrix subject kind {opaque AT, JWT AT, RT, ID token, foreign (other key / issuer / tampered), expired, revoked, garbage, colon subject} x declared type (the natural one, or any of access/refresh/id/jwt/unknown/absent) x actor {none or any kind} x requested type {absent, access, refresh, id, jwt, unknown} x credentials x scopes (incl. the storage's veto at its first hook, its late veto at the second hook - CreateTokenExchangeRequest, plain or OAuth error, a world dimension - and drop) x audience, each returned token presented at userinfo / introspection half of the time. Non-trivial = at least one exchange of the history succeeded (path class != 0); distinct = distinct (input, path class). Helper cases (case=helper; round 11): a shorter history (flows, revocation / logout, 0-2 exchanges), then ONE token-exchange request built and sent by the library's client helpers - tokenexchange.NewTokenExchangeRequest with 0-6 options WithActorToken / WithAudience / WithGrantType / WithRequestedTokenType / WithResource / WithScope in any order (kinds repeated: the last counts), rp.DelegationTokenRequest, or client/tokenexchange.ExchangeToken (incl. the call it must refuse: no subject_token_type) - sent with client.CallTokenExchangeEndpoint through a TokenExchanger (client credentials / none) or an rs.ResourceServer (TokenEndpoint), subject / actor kinds and declared types from the same matrix, scope / audience / resource lists incl. empty ones, veto / drop / late, a grant type that is no grant of the provider; observed: the form at the HTTP transport, the provider's answer, the request views of the storage hooks (all getters of op.TokenExchangeRequest). Non-trivial for a helper case = the request reached the storage.",
 	})
 	if err != nil {
 		fmt.Fprintln(os.Stderr, err)
